@@ -756,6 +756,42 @@ impl<W: Clone> constriction::backends::ReadWords<W, constriction::Stack> for Fai
     fn read(&mut self) -> Result<Option<W>, Self::ReadError> { Ok(self.buf.pop()) }
 }
 
+/// a queue encoder started on words that are already there (`from_compressed`), looked at before and between its own bits:
+/// the view shows the words plus what was written, and the final export is the words followed by the bits
+fn prefilled_queue<W: BitArray>(report: &Report) where u64: num_traits::AsPrimitive<W> {
+    let wn = core::any::type_name::<W>();
+    let mut bad: Bad = vec![];
+    let mut n = 0u64;
+    let w = |x: u64| -> W { num_traits::AsPrimitive::<W>::as_(x) };
+    for prefix_len in 1..=3usize {
+        let prefix: Vec<W> = (0..prefix_len).map(|i| w([0xabu64, 0, 0xd5][i])).collect();
+        for nbits in 0..=(W::BITS + 2) {
+            for pattern in 0..3u32 {
+                n += 1;
+                let bit = |i: usize| match pattern { 0 => false, 1 => true, _ => i % 3 == 0 };
+                let mut plain = QueueEncoder::<W>::from_compressed(prefix.clone());
+                let mut looked = QueueEncoder::<W>::from_compressed(prefix.clone());
+                let first: Vec<W> = looked.get_compressed().to_vec();
+                if first != prefix {
+                    bad.push((format!("QueueEncoder::get_compressed | {wn} | a view taken before the first bit of an encoder started on existing words does not show exactly those words"), format!("{} words: {:?}", prefix_len, first.len())));
+                }
+                for i in 0..nbits {
+                    plain.write_bit(bit(i)).unwrap_infallible();
+                    looked.write_bit(bit(i)).unwrap_infallible();
+                    let _ = looked.get_compressed().len();
+                }
+                let (a, b) = (plain.into_compressed().unwrap_infallible(), looked.into_compressed().unwrap_infallible());
+                if a != b || a.len() < prefix_len || a[..prefix_len] != prefix[..] {
+                    bad.push((format!("QueueEncoder | {wn} | an encoder started on existing words and looked at on the way exports something else than the words followed by its bits"), format!("{prefix_len} words, {nbits} bits of pattern {pattern}: {} vs {} words", b.len(), a.len())));
+                }
+            }
+        }
+    }
+    report.add_transitions(n);
+    report.count("queue_encoders_started_on_existing_words", n);
+    for (i, d) in bad { report.violation(Violation { identity: i, detail: d, case: json!({"kind": "none"}) }); }
+}
+
 /// bits ACCEPTED by a coder (write_bit returned Ok) come back in order also when some writes in between were refused
 /// because the sink failed: a refused bit is retried once; nothing that was accepted may be lost or doubled
 fn accepted_bits_survive_sink_errors<W: BitArray>(report: &Report) {
@@ -833,6 +869,8 @@ pub fn run(report: &Report) {
     long_codewords(report);
     wrapper_apis::<u8>(report, if q { 11 } else { 15 });
     wrapper_apis::<u32>(report, if q { 9 } else { 13 });
+    prefilled_queue::<u8>(report);
+    prefilled_queue::<u32>(report);
     accepted_bits_survive_sink_errors::<u8>(report);
     accepted_bits_survive_sink_errors::<u32>(report);
     super::pyfront::sweep(report, "views", if q { 3 } else { 4 }, "every constructor that takes compressed words (8) on every word string up to the listed length over 6 words, and every call form that takes symbol / parameter arrays (3 coders x 2 forms) on every message up to length 4: a negative-stride view, a stride-2 view and an interior slice must be read like a contiguous copy", &["symbol."], &[]);
